@@ -281,9 +281,9 @@ def run(ctx):
     if cr:
         effs = [bi for bi, _ in deff.get(cr.path, [])] + [bi for bi, t in cr.calls() if any(n in may for n in call_names(t))]
         none = lib.prune_option_field(cr, '.DbInner.bg_err', keep_some=True)
-        gate = [bi for bi in cr.normal_blocks() for s in cr.blocks[bi]['s'] if s['k'] == 'assign' and s['r']['k'] == 'agg' and s['r']['ak'] == 'Adt:error::Error::Background']
-        ctx.ob('g0 bg-gate-anchor', 'anchor', cr.path, 'commit_raw builds Error::Background in one place', len(gate) == 1, str(gate))
-        bl = [bi for bi, t in cr.calls() if call_matches(t, ['re:Mutex.*::lock$']) and '.DbInner.bg_err' in lib.receiver_fields(cr, t, 0)]
+        # (the refusal may be made in commit_raw itself or by a helper whose verdict is the state of the slot)
+        gate, bl = lib.option_gate_sites(cr, '.DbInner.bg_err', 'Adt:error::Error::Background')
+        ctx.ob('g0 bg-gate-anchor', 'anchor', cr.path, 'commit_raw refuses with Error::Background in one place', len(gate) == 1, str(gate))
         for e in sorted(set(effs)):
             lib.precedes(ctx, 'g1 bg-gate-before-effect bb-of:%s' % (cr.term(e).get('r') or cr.term(e).get('f') or 'store'), cr, bl, [e],
                          'the background-error slot is examined before any effect of commit_raw')
